@@ -93,6 +93,12 @@ def _o_c02(rng, c, variant):
     return {"texts": rows, "kinds": kinds, "convert": convert, "shadow": rng.random() < 0.5}
 
 
+def _o_c06(rng, c, variant):
+    """variant 1: RTFBody(last_row=False) - a documented option of the body that has nothing to do with where title, footnote
+    and source go."""
+    return {"last_row": False} if variant == 1 else {}
+
+
 def _o_c08(rng, c, variant):
     """variant 1: the document is constructed on a page of another table width and given the scenario's page afterwards."""
     return {"repage": True} if variant == 1 else {}
@@ -160,6 +166,9 @@ PROPS = {
                                  LevelSet={1, 2, 3}, HdrSet={"none", "default", "explicit", "explicit2"}, FootSet=FS3,
                                  SrcSet=FS3, NewPageSet=NP, PbRowSet=PR, PlaceSet=PL3, FontSet={1, 4, 6, 9}, SizeSet={6, 9, 12, 18, 24},
                                  PbHdrSet=NP, DivSet=DIVX, DupSet=NP), simulate=900),
+                   # subline_by sections without repeated column headers, one and two header rows, every group layout
+                   dict(consts=C(NSet={6}, Heights={1}, NrowSet={6, 7, 8}, Strategies={"subline", "subpb"}, HdrSet={"explicit", "explicit2"},
+                                 PbHdrSet={False}, FootSet={"none"})),
                    # heights from a numeric column / a wrapping group_by label (variants 1, 2)
                    dict(consts=C(NSet={7, 12, 20}, Heights={1, 2, 3, 4}, NrowSet={5, 8, 13, 21}, Strategies=S3,
                                  LevelSet={1, 2}, HdrSet={"none", "default", "explicit"}, FootSet={"none", "table"},
@@ -243,7 +252,7 @@ PROPS = {
                                  PaperSet={"letter", "letterm", "landscape", "a4", "a4land", "a4landp", "custom"}, PgHFSet={0, 3, 15})),
                    dict(consts=C(NSet={0, 1, 5, 8}, Heights={1}, NrowSet={3, 4, 6, 20}, Strategies=S3, HdrSet={"none", "default", "explicit", "explicit2"},
                                  FootSet=FS3, SrcSet=FS3, PlaceSet=PL3, TitleSet=NP, SublineSet=NP, PbHdrSet=NP, HdrWSet=NP, HdrTupleSet=NP,
-                                 PaperSet={"letter", "letterm", "landscape", "a4", "a4land", "a4landp", "custom"}, PgHFSet={0, 1, 2, 3, 5, 10, 15}), simulate=1200)],
+                                 PaperSet={"letter", "letterm", "landscape", "a4", "a4land", "a4landp", "custom"}, PgHFSet={0, 1, 2, 3, 5, 10, 15}), simulate=900, variants=2)],
             thorough=[dict(consts=C(NSet={1, 5}, Heights={1}, NrowSet={3, 4, 20}, Strategies=S3, HdrSet={"none", "default"}, FootSet=FS3, SrcSet=FS3,
                                     PlaceSet=PL3, TitleSet={True}, SublineSet={True}, PbHdrSet=NP)),
                       dict(consts=C(NSet={0}, Heights={1}, NrowSet={3}, Strategies=S3, HdrSet={"none", "default"}, FootSet=FS3, SrcSet=FS3, PlaceSet=PL3,
@@ -251,7 +260,8 @@ PROPS = {
                       dict(consts=C(NSet={0, 1, 5, 12}, Heights={1, 2}, NrowSet={3, 4, 6, 20}, Strategies=ALL_STRAT,
                                     HdrSet={"none", "default", "explicit", "explicit2"}, FootSet=FS3, SrcSet=FS3, PlaceSet=PL3, TitleSet=NP,
                                     SublineSet=NP, PbHdrSet=NP, PaperSet={"letter", "letterm", "landscape", "a4", "a4land", "a4landp", "custom"},
-                                    PgHFSet={0, 1, 2, 3, 5, 10, 15}, HdrWSet=NP, HdrTupleSet=NP), simulate=12000)]),
+                                    PgHFSet={0, 1, 2, 3, 5, 10, 15}, HdrWSet=NP, HdrTupleSet=NP), simulate=9000, variants=2)]),
+        opts=_o_c06,
         nontrivial=lambda c, pred: pred is not None and pred and pred[-1]["p"] >= 2,
     ),
     "C07": dict(
@@ -289,7 +299,7 @@ PROPS = {
                    dict(consts=C(NSet={3}, Heights={1}, NrowSet={3, 30}, Strategies=ALL_STRAT, LevelSet={1, 2}, NewPageSet=NP, PbRowSet=PR,
                                  HdrSet={"none", "default", "explicit", "explicit2"}, FootSet={"none", "table"}, SrcSet={"none", "table"},
                                  NDataSet={1, 2, 3, 4, 6}, GPosSet={"first", "middle", "last", "split"}, RelWSet={"equal", "asc", "mixed", "tenths", "ascdisp", "mixeddisp"},
-                                 HdrWSet=NP, HdrTupleSet=NP, PaperSet={"letter", "landscape", "custom"}), simulate=1100, variants=2)],
+                                 HdrWSet=NP, HdrTupleSet=NP, PaperSet={"letter", "landscape", "custom", "widecol"}), simulate=1100, variants=2)],
             thorough=[dict(consts=C(NSet={2}, Heights={1}, NrowSet={30}, Strategies={"plain", "pageby"}, LevelSet={1}, HdrSet={"default", "explicit"},
                                     FootSet={"none", "table"}, NDataSet={7, 8, 9, 10, 11, 12}, RelWSet={"equal", "asc", "mixed", "tenths", "ascdisp", "mixeddisp"}, HdrWSet=NP,
                                     PaperSet={"letter", "landscape", "a4", "custom"})),
@@ -297,7 +307,7 @@ PROPS = {
                                     HdrSet={"none", "default", "explicit", "explicit2"}, FootSet={"none", "table"}, SrcSet={"none", "table"},
                                     NDataSet={1, 2, 3, 4, 6, 9, 12}, GPosSet={"first", "middle", "last", "split"},
                                     RelWSet={"equal", "asc", "mixed", "tenths", "ascdisp", "mixeddisp"}, HdrWSet=NP, HdrTupleSet=NP,
-                                    PaperSet={"letter", "landscape", "a4", "custom"}), simulate=11000, variants=2)]),
+                                    PaperSet={"letter", "landscape", "a4", "custom", "widecol"}), simulate=11000, variants=2)]),
         opts=_o_c08,
         nontrivial=lambda c, pred: c.get("ndata", 2) + (c["nlev"] if pipeline.has_pb(c) else 0) >= 2,
     ),
